@@ -316,9 +316,28 @@ func vsGenHist(r *rand.Rand) vsHist {
 		lastNode[0] = &c
 		return vsEv{Op: "node", Node: &c}, true
 	}
+	curDisabled, curSpk := h.Disabled, append([]int(nil), h.Speakers...)
+	var deleted [3]bool
 	for n := 5 + r.Intn(21); n > 0; n-- {
 		x := r.Intn(100)
 		switch {
+		case x == 99 || x == 83:
+			// a Node object (of another node) is deleted; with memberlist its speaker leaves the list too
+			idx := 1 + r.Intn(2)
+			if lastNode[idx] != nil && !deleted[idx] {
+				deleted[idx] = true
+				h.Evs = append(h.Evs, vsEv{Op: "nodedel", Node: &vsNode{Idx: idx}})
+				if !curDisabled {
+					var l []int
+					for _, i := range curSpk {
+						if i != idx {
+							l = append(l, i)
+						}
+					}
+					curSpk = l
+					h.Evs = append(h.Evs, vsEv{Op: "spk", Speakers: l})
+				}
+			}
 		case x >= 96 && x < 98 || x >= 84 && x < 88:
 			if e, ok := labelOnly(); ok {
 				h.Evs = append(h.Evs, e)
@@ -363,7 +382,7 @@ func vsGenHist(r *rand.Rand) vsHist {
 			h.Evs = append(h.Evs, vsEv{Op: "cfg", Cfg: c})
 		case x < 88:
 			idx := r.Intn(3)
-			if r.Intn(2) == 0 {
+			if r.Intn(2) == 0 || deleted[idx] {
 				idx = 0
 			}
 			nd := genNode(idx)
@@ -380,7 +399,14 @@ func vsGenHist(r *rand.Rand) vsHist {
 			h.Evs = append(h.Evs, vsEv{Op: "node", Node: nd})
 		case x < 96:
 			d, l := vsGenSpk(r)
-			h.Evs = append(h.Evs, vsEv{Op: "spk", Disabled: d, Speakers: l})
+			var l2 []int
+			for _, i := range l {
+				if !deleted[i] {
+					l2 = append(l2, i)
+				}
+			}
+			curDisabled, curSpk = d, l2
+			h.Evs = append(h.Evs, vsEv{Op: "spk", Disabled: d, Speakers: l2})
 		default:
 			h.Evs = append(h.Evs, vsEv{Op: "resync"})
 		}
@@ -620,6 +646,8 @@ func vsEvCoq(e vsEv) string {
 		return cCtor("ECfg", vsCfgCoq(e.Cfg))
 	case "node":
 		return cCtor("ENode", cCtor("Build_nodeinfo", cNi(e.Node.Idx), cBool(e.Node.Unavail), cBool(e.Node.Excl), vbPairsCoq(e.Node.Labels)))
+	case "nodedel":
+		return cCtor("ENodeDel", cNi(e.Node.Idx))
 	case "spk":
 		if e.Disabled {
 			return cCtor("ESpk", cNone)
@@ -672,9 +700,20 @@ func vsHashCoq() string {
 type vsWorld struct {
 	K       map[int]*vsSvc
 	nodes   map[int]*vsNode
-	cfg     *vsCfg // last accepted
+	cfg     *vsCfg // last accepted by the speaker
+	lastCfg *vsCfg // last delivered (what the API server holds); != cfg while a refused configuration is pending
+	deleted map[int]*vsNode // Node objects deleted from the cluster (the speaker never hears of it)
 	stale   bool   // a node's first event happened with services present and no re-sync since
 	staleBy int
+}
+
+func vsKeys(m map[int]*vsNode) []int {
+	var r []int
+	for k := range m {
+		r = append(r, k)
+	}
+	sort.Ints(r)
+	return r
 }
 
 // index of the pool containing all the addresses, -1 if none
@@ -740,17 +779,27 @@ func vsResync(k *vsCtl, w *vsWorld, r *rand.Rand) {
 }
 
 // a fresh real controller fed the final cluster state
-func vsFresh(h vsHist, k *vsCtl, w *vsWorld) vsObs {
+func vsFresh(h vsHist, k *vsCtl, w *vsWorld) vsObs { return vsFreshWith(h, k, w, nil) }
+
+// extra: Node objects fed in addition to the cluster's (the deleted ones the speaker still remembers)
+func vsFreshWith(h vsHist, k *vsCtl, w *vsWorld, extra map[int]*vsNode) vsObs {
 	f := vsNewCtl(h.Ignore, &vsSL{disabled: k.sl.disabled, nodes: append([]int(nil), k.sl.nodes...)})
 	defer f.a.VerifSpkClose()
 	lg := log.NewNopLogger()
+	all := map[int]*vsNode{}
+	for i, n := range extra {
+		all[i] = n
+	}
+	for i, n := range w.nodes {
+		all[i] = n
+	}
 	idx := []int{}
-	for i := range w.nodes {
+	for i := range all {
 		idx = append(idx, i)
 	}
 	sort.Ints(idx)
 	for _, i := range idx {
-		f.c.SetNode(lg, vsBuildNode(w.nodes[i]))
+		f.c.SetNode(lg, vsBuildNode(all[i]))
 	}
 	if w.cfg != nil {
 		f.c.SetConfig(lg, vsBuildCfg(w.cfg))
@@ -856,6 +905,7 @@ func vsRunHistory(out *vOut, id int, kind string, h vsHist, r *rand.Rand) {
 	failed := false
 	failedElig := false
 	failedIfs := false
+	delNode := false // a deleted node the speaker remembers already explained a difference: later comparisons are not meaningful
 	f9 := false
 	emit := func(e vsEv) vsObs {
 		o := vsObserve(k)
@@ -894,6 +944,7 @@ func vsRunHistory(out *vOut, id int, kind string, h vsHist, r *rand.Rand) {
 			out.Stat("ev_cfg", 1)
 			built := vsBuildCfg(e.Cfg)
 			st := k.c.SetConfig(lg, built)
+			w.lastCfg = e.Cfg
 			if k.c.config == built {
 				w.cfg = e.Cfg
 			}
@@ -911,6 +962,16 @@ func vsRunHistory(out *vOut, id int, kind string, h vsHist, r *rand.Rand) {
 				}
 			default:
 				out.Stat("ev_cfg_other_return", 1) // no re-sync requested: the comparison with a fresh speaker decides
+			}
+		case "nodedel":
+			// the Node object disappears from the cluster; the node reconciler ignores NotFound: no handler call
+			if nd := w.nodes[e.Node.Idx]; nd != nil {
+				if w.deleted == nil {
+					w.deleted = map[int]*vsNode{}
+				}
+				w.deleted[e.Node.Idx] = nd
+				delete(w.nodes, e.Node.Idx)
+				out.Stat("ev_node_deleted", 1)
 			}
 		case "node":
 			prev, known := w.nodes[e.Node.Idx]
@@ -982,7 +1043,24 @@ func vsRunHistory(out *vOut, id int, kind string, h vsHist, r *rand.Rand) {
 				break
 			}
 		}
-		if vsAnnounced(o) != vsAnnounced(want) && !f9 {
+		if w.lastCfg != w.cfg {
+			// a refused configuration is pending (the reconciler retries it): the speaker is, by design, still on the
+			// previous configuration; `want` is the fresh speaker on that one (hypothesis in_sync of the theorem)
+			out.Stat("steps_with_pending_refused_configuration", 1)
+		}
+		if vsAnnounced(o) != vsAnnounced(want) && !f9 && !delNode && len(w.deleted) > 0 && !w.stale &&
+			vsAnnounced(o) == vsAnnounced(vsFreshWith(h, k, w, w.deleted)) {
+			// explained by the deleted Node objects the speaker still remembers (recorded finding)
+			delNode = true
+			out.Stat("deleted_node_hits", 1)
+			if !failed {
+				out.Fail("speaker-remembers-deleted-node",
+					fmt.Sprintf("after event %d: the speaker announces %s, a fresh speaker on the cluster's nodes %s; the difference is the deleted Node object(s) %v the speaker still counts (memberlist disabled: candidates = all nodes ever seen)",
+						len(done)-1, vsAnnounced(o), vsAnnounced(want), vsKeys(w.deleted)),
+					map[string]any{"history": vsHist{Ignore: h.Ignore, Disabled: h.Disabled, Speakers: h.Speakers, SharedAddr: h.SharedAddr, Evs: done}, "observed": o, "fresh": want})
+			}
+		}
+		if vsAnnounced(o) != vsAnnounced(want) && !f9 && !delNode {
 			if w.stale {
 				// the missing re-sync after a node's first event: apply it and look again
 				vsResync(k, w, r)
@@ -1255,7 +1333,12 @@ func vsGenElectHist(r *rand.Rand) vsHist {
 		last[k] = vsElectSvc(r, k)
 		h.Evs = append(h.Evs, vsEv{Op: "svc", Name: k, Svc: last[k]})
 	}
+	var gone [3]bool
+	curSpk := append([]int(nil), h.Speakers...)
 	flip := func(idx int) {
+		if gone[idx] {
+			idx = 0
+		}
 		c := *node[idx]
 		if r.Intn(3) != 0 || (h.Ignore && r.Intn(2) == 0) {
 			c.Unavail = !c.Unavail
@@ -1286,15 +1369,33 @@ func vsGenElectHist(r *rand.Rand) vsHist {
 		case x < 86:
 			k := r.Intn(3)
 			h.Evs = append(h.Evs, vsEv{Op: "del", Name: k}, vsEv{Op: "svc", Name: k, Svc: last[k]})
-		case x < 93:
+		case x < 90:
 			if !h.Disabled {
 				var l []int
 				for i := 0; i < 3; i++ {
-					if r.Intn(4) != 0 {
+					if r.Intn(4) != 0 && !gone[i] {
 						l = append(l, i)
 					}
 				}
+				curSpk = l
 				h.Evs = append(h.Evs, vsEv{Op: "spk", Speakers: l})
+			}
+		case x < 93:
+			// a node is removed from the cluster: with memberlist its speaker leaves the list, then the Node object is deleted
+			idx := 1 + r.Intn(2)
+			if !gone[idx] {
+				gone[idx] = true
+				if !h.Disabled {
+					var l []int
+					for _, i := range curSpk {
+						if i != idx {
+							l = append(l, i)
+						}
+					}
+					curSpk = l
+					h.Evs = append(h.Evs, vsEv{Op: "spk", Speakers: l})
+				}
+				h.Evs = append(h.Evs, vsEv{Op: "nodedel", Node: &vsNode{Idx: idx}})
 			}
 		default:
 			h.Evs = append(h.Evs, vsEv{Op: "cfg", Cfg: vsElectCfg(r)})
@@ -1376,6 +1477,7 @@ func vsRunMulti(out *vOut, kind string, h vsHist, r *rand.Rand) {
 	w := &vsWorld{K: map[int]*vsSvc{}, nodes: map[int]*vsNode{}}
 	var done []vsEv
 	failed := false
+	delNode := false
 	resync := func(k *vsCtl) {
 		names := []int{}
 		for n := range w.K {
@@ -1396,6 +1498,15 @@ func vsRunMulti(out *vOut, kind string, h vsHist, r *rand.Rand) {
 			delete(w.K, e.Name)
 		case "node":
 			w.nodes[e.Node.Idx] = e.Node
+		case "nodedel":
+			if nd := w.nodes[e.Node.Idx]; nd != nil {
+				if w.deleted == nil {
+					w.deleted = map[int]*vsNode{}
+				}
+				w.deleted[e.Node.Idx] = nd // the node and its speaker are gone; the other speakers are not told
+				delete(w.nodes, e.Node.Idx)
+				out.Stat("multi_node_deleted", 1)
+			}
 		case "cfg":
 			w.cfg = e.Cfg
 		case "spk":
@@ -1403,6 +1514,9 @@ func vsRunMulti(out *vOut, kind string, h vsHist, r *rand.Rand) {
 		}
 		for _, i := range order {
 			k := ks[i]
+			if w.deleted[i] != nil || e.Op == "nodedel" {
+				continue // a removed node runs no speaker; a Node deletion reaches no handler
+			}
 			switch e.Op {
 			case "svc":
 				vsSetBalancer(k, e.Name, e.Svc)
@@ -1430,6 +1544,9 @@ func vsRunMulti(out *vOut, kind string, h vsHist, r *rand.Rand) {
 		// an eligible node is answered; nothing else is
 		got := map[string][]int{} // address -> nodes whose announcer holds it (under any service)
 		for i, k := range ks {
+			if w.deleted[i] != nil {
+				continue
+			}
 			seen := map[string]bool{}
 			for _, ents := range k.a.VerifSpkDump() {
 				for _, en := range ents {
@@ -1440,73 +1557,119 @@ func vsRunMulti(out *vOut, kind string, h vsHist, r *rand.Rand) {
 				}
 			}
 		}
-		want := map[string][]int{}
-		holder := map[string]int{}
-		for n, s := range w.K {
-			var elig []int
-			pi := -1
-			if s.LB && !s.Invalid && len(s.IPs) > 0 {
-				pi = vsPoolIdx(w.cfg, s.IPs)
-			}
-			if pi >= 0 {
-				anyEp := false
-				for _, ep := range vbEntries(vbLayout{Eps: s.Eps}) {
-					if vbCanServe(ep) {
-						anyEp = true
-					}
+		expected := func(remembered bool) (map[string][]int, map[string]int) {
+			want := map[string][]int{}
+			holder := map[string]int{}
+			for n, s := range w.K {
+				var elig []int
+				pi := -1
+				if s.LB && !s.Invalid && len(s.IPs) > 0 {
+					pi = vsPoolIdx(w.cfg, s.IPs)
 				}
-				for i := 0; i < 3 && anyEp; i++ {
-					nd := w.nodes[i]
-					speaker := nd != nil
-					if !sl.disabled {
-						speaker = false
-						for _, x := range sl.nodes {
-							if x == i {
-								speaker = true
-							}
-						}
-					}
-					sel := false
-					for _, a := range w.cfg.Pools[pi].L2 {
-						for _, x := range a.Nodes {
-							if x == i {
-								sel = true
-							}
-						}
-					}
-					here := !s.Local
+				if pi >= 0 {
+					anyEp := false
 					for _, ep := range vbEntries(vbLayout{Eps: s.Eps}) {
-						if vbCanServe(ep) && ep.Node == i {
-							here = true
+						if vbCanServe(ep) {
+							anyEp = true
 						}
 					}
-					if speaker && sel && here && !(nd != nil && nd.Unavail) && !(nd != nil && nd.Excl && !h.Ignore) {
-						elig = append(elig, i)
+					for i := 0; i < 3 && anyEp; i++ {
+						nd := w.nodes[i]
+						if nd == nil && remembered {
+							nd = w.deleted[i] // a deleted Node object the speakers still hold
+						}
+						speaker := nd != nil
+						if !sl.disabled {
+							speaker = false
+							for _, x := range sl.nodes {
+								if x == i {
+									speaker = true
+								}
+							}
+						}
+						sel := false
+						for _, a := range w.cfg.Pools[pi].L2 {
+							for _, x := range a.Nodes {
+								if x == i {
+									sel = true
+								}
+							}
+						}
+						here := !s.Local
+						for _, ep := range vbEntries(vbLayout{Eps: s.Eps}) {
+							if vbCanServe(ep) && ep.Node == i {
+								here = true
+							}
+						}
+						if speaker && sel && here && !(nd != nil && nd.Unavail) && !(nd != nil && nd.Excl && !h.Ignore) {
+							elig = append(elig, i)
+						}
 					}
 				}
-			}
-			if len(elig) > 0 {
-				best, bh := -1, ""
-				for _, i := range elig {
-					d := sha256.Sum256([]byte(vbNodeNames[i] + "#" + net.ParseIP(s.IPs[0]).String()))
-					if best < 0 || string(d[:]) < bh {
-						best, bh = i, string(d[:])
+				if len(elig) > 0 {
+					best, bh := -1, ""
+					for _, i := range elig {
+						d := sha256.Sum256([]byte(vbNodeNames[i] + "#" + net.ParseIP(s.IPs[0]).String()))
+						if best < 0 || string(d[:]) < bh {
+							best, bh = i, string(d[:])
+						}
+					}
+					for _, ip := range s.IPs {
+						c := net.ParseIP(ip).String()
+						want[c] = []int{best}
+						if w.deleted[best] != nil {
+							want[c] = nil // the elected node is gone: nobody answers
+						}
+						holder[c] = n
+					}
+					if !remembered {
+						out.Stat("multi_elections", 1)
+						if len(elig) > 1 {
+							out.Stat("multi_contested_elections", 1)
+						}
+						if len(s.IPs) > 1 {
+							out.Stat("multi_dual_address_services", 1)
+						}
 					}
 				}
-				for _, ip := range s.IPs {
-					c := net.ParseIP(ip).String()
-					want[c] = []int{best}
-					holder[c] = n
-				}
-				out.Stat("multi_elections", 1)
-				if len(elig) > 1 {
-					out.Stat("multi_contested_elections", 1)
-				}
-				if len(s.IPs) > 1 {
-					out.Stat("multi_dual_address_services", 1)
+				if !remembered {
+					out.Stat("multi_service_checks", 1)
 				}
 			}
-			out.Stat("multi_service_checks", 1)
+			return want, holder
+		}
+		want, holder := expected(false)
+		// recorded finding: with memberlist disabled a deleted node stays a candidate of the other speakers' elections
+		if sl.disabled && len(w.deleted) > 0 && !delNode {
+			w2, _ := expected(true)
+			same := func(x map[string][]int) bool {
+				keys := map[string]bool{}
+				for a := range got {
+					keys[a] = true
+				}
+				for a := range x {
+					keys[a] = true
+				}
+				for a := range keys {
+					if fmt.Sprint(got[a]) != fmt.Sprint(x[a]) {
+						return false
+					}
+				}
+				return true
+			}
+			if !same(want) && same(w2) {
+				delNode = true
+				out.Stat("multi_deleted_node_hits", 1)
+				if !failed {
+					out.Fail("l2-deleted-node-still-candidate",
+						fmt.Sprintf("several speakers, after event %d (%s): the layer-2 answers %v are those of elections in which the deleted node(s) %v still take part (memberlist disabled: candidates = all nodes ever seen); on the cluster's nodes they would be %v",
+							len(done)-1, e.Op, got, vsKeys(w.deleted), want),
+						map[string]any{"multi_history": vsHist{Ignore: h.Ignore, Disabled: h.Disabled, Speakers: h.Speakers, SharedAddr: h.SharedAddr, Evs: done}})
+				}
+			}
+		}
+		if delNode {
+			continue
 		}
 		addrs := map[string]bool{}
 		for a := range got {
@@ -1542,6 +1705,10 @@ func TestVerifSpkMulti(t *testing.T) {
 	defer out.Close()
 	r := vRand()
 	n := vN(30)
+	gone := vsOwnerFlipHist(1, false)
+	gone.Disabled, gone.Speakers = true, nil
+	gone.Evs = append(gone.Evs[:4:4], vsEv{Op: "nodedel", Node: &vsNode{Idx: 1}}, vsEv{Op: "resync"}, gone.Evs[3])
+	vsRunMulti(out, "corpus-deleted-node", gone, r)
 	for _, other := range []int{1, 2} {
 		vsRunMulti(out, "corpus-owner-flip", vsOwnerFlipHist(other, false), r)
 		vsRunMulti(out, "corpus-labelled-owner-flip", vsOwnerFlipHist(other, true), r)
@@ -1665,6 +1832,12 @@ func TestVerifSpk(t *testing.T) {
 	}}
 	id++
 	vsRunHistory(out, id, "corpus-advertisements-with-different-selectors", ifsHist, r)
+	// memberlist disabled: the Node object of the election's winner is deleted; the speaker never hears of it
+	ownerGone := vsOwnerFlipHist(1, false)
+	ownerGone.Disabled, ownerGone.Speakers = true, nil
+	ownerGone.Evs = append(ownerGone.Evs[:4:4], vsEv{Op: "nodedel", Node: &vsNode{Idx: 1}}, vsEv{Op: "resync"}, ownerGone.Evs[3])
+	id++
+	vsRunHistory(out, id, "corpus-deleted-node", ownerGone, r)
 	// a configuration that orphans an announced address is refused, then the address changes and it is accepted
 	refuse := vsHist{Speakers: []int{0}, Evs: []vsEv{
 		{Op: "node", Node: &vsNode{Idx: 0}},
